@@ -106,6 +106,24 @@ CHECKS["C06"] = dict(
     technique="Lean 4 proofs over the lock IR of the reload path regenerated from the source + TSan stress with two-state/monotonicity oracle",
     design="§5 C06")
 
+CHECKS["C11"] = dict(
+    text="Proof: for all path lengths, signature lengths and NLRI lengths the byte stream align_byte_sequence builds, cut at the per-hop offsets "
+         "of the validation loop, equals the RFC 8205 section 4.2 digest written independently as a recursion over the path (align_eq_rfc); "
+         "validate = VALID iff the pre-checks pass and for every hop some key registered for the segment's SKI and the Secure_Path segment's AS "
+         "verifies hash(digest i) (decision, full strength); equal digests force equal signed fields (digest_injective); error-code precedence, never VALID. "
+         "Tie: align/size byte-for-byte; end-to-end with fresh OpenSSL P-256 keys signing the Lean digest, all single-bit corruptions, key tables "
+         "with several keys per SKI and keys under other AS numbers.",
+    note=TB + "SHA-256, ECDSA, DER and key loading are uninterpreted hash/verify/sign (OpenSSL in the runs); counters are unbounded Nat; NLRI trailing bits are the caller's duty.",
+    technique="Lean 4 theorems over a byte-level model with uninterpreted crypto + differential correspondence with real crypto",
+    design="§5 C11")
+CHECKS["C12"] = dict(
+    text="Proof: the signing digest equals the RFC 8205 digest for all lengths (sign_digest_eq_rfc); a path built hop by hop from generated signatures "
+         "validates VALID at every stage under the verify-after-sign assumption per key pair (hop_by_hop_valid, induction on hops); error codes. "
+         "Tie: generated signatures verified with OpenSSL ECDSA_verify over SHA-256 of the Lean digest, strict DER parse, N-hop paths validated by rtrlib.",
+    note=TB + "as C11: randomised ECDSA and DER live in OpenSSL.",
+    technique="Lean 4 theorems over a byte-level model with uninterpreted crypto + differential correspondence with real crypto",
+    design="§5 C12")
+
 NOT_YET = {}
 
 
